@@ -115,7 +115,16 @@ RevealCond ==
             e == IF i <= Len(WideSeq) THEN Bin(">>", inner, NumN(1)) ELSE Bin("<", inner, NumN(0))
         IN  Prog3("rvc-" \o ToString(i), U8, lt, rt, e, <<"reveal64", "?:">>, "pairs")]
 
-Programs == Depth1Bin \o Depth1Un \o Depth1Cond \o Depth2 \o RandomTrees \o Reveal64 \o RevealCond
+\* a cast to a signed type in front of >> (the shift is arithmetic whatever the operand of the cast was), and to an
+\* unsigned type (logical), over sources of the same, a smaller and a larger width
+CastShift ==
+    [i \in 1..(8 * 4 * 2) |->
+        LET lt == Types8[((i - 1) % 8) + 1]
+            tt == (<<S32, S64, U32, U64>>)[(((i - 1) \div 8) % 4) + 1]
+            src == IF i <= 32 THEN Var("a") ELSE Bin("-", Var("a"), Var("b"))
+        IN  Prog2("cs-" \o ToString(i), lt, lt, Bin(">>", CastE(tt, src), NumN(4)), <<"castshift">>, "pairs")]
+
+Programs == CastShift \o Depth1Bin \o Depth1Un \o Depth1Cond \o Depth2 \o RandomTrees \o Reveal64 \o RevealCond
 
 VARIABLE x
 Init == x = JsonSerialize(IOEnv.GEN_OUT, Programs)
